@@ -1,6 +1,8 @@
 package main
 
 import (
+	"go/token"
+	"sort"
 
 	"golang.org/x/tools/go/ssa"
 )
@@ -49,6 +51,45 @@ func runC13(c *Ctx) {
 	}
 	layer := encl[len(encl)-1]
 	c.Check("G1-layer-barrier", fnName(fn)+"#layer-loop", true, fo.goStmt.Pos(), "fan-out nested in the layer loop")
+	// every layer is visited: the only ways out of the layer loop are its end and the
+	// return of a new error (a `break` on an empty layer would drop all later layers)
+	{
+		var blks []*ssa.BasicBlock
+		for b := range layer.Blocks {
+			blks = append(blks, b)
+		}
+		sort.Slice(blks, func(i, j int) bool { return blks[i].Index < blks[j].Index })
+		okExits := true
+		var at token.Pos = fo.goStmt.Pos()
+		for _, b := range blks {
+			if b == layer.Head {
+				continue
+			}
+			for _, sc := range b.Succs {
+				if layer.Blocks[sc] || len(sc.Instrs) == 0 {
+					continue
+				}
+				if _, quiet := pathFrom(sc.Instrs[0], func(in ssa.Instruction) bool {
+					r, ok := in.(*ssa.Return)
+					if !ok || in.Block() == fn.Recover {
+						return false
+					}
+					for _, pv := range x.PossibleValues(r.Results[len(r.Results)-1]) {
+						if pv.V == nil || !isNewError(pv.V) {
+							return true
+						}
+					}
+					return false
+				}, nil); quiet {
+					okExits = false
+					if p := b.Instrs[len(b.Instrs)-1].Pos(); p.IsValid() {
+						at = p
+					}
+				}
+			}
+		}
+		c.Check("G1-layer-barrier", fnName(fn)+"#every-layer-visited", okExits, at, "the loop over the layers may be left early only by returning a new error: any other way out skips the remaining layers")
+	}
 	// no synchronous executions
 	for _, e := range m.execs {
 		if e.in == fn {
